@@ -68,6 +68,20 @@ Theorem C12_request_within_limits_not_rejected_for_size : forall c rbuf p i,
 Proof. exact header_block_within_limits_not_rejected. Qed.
 Print Assumptions C12_request_within_limits_not_rejected_for_size.
 
+(* the whole request head, for every segmentation (d = the first read, p = the following ones): request line within
+   limit_request_line, number of fields within limit_request_fields, every field within limit_request_field_size
+   => whatever else is wrong with the request, the error is not one of the two size errors (414 / 431) *)
+Theorem C12_request_within_all_limits_not_rejected_for_size : forall c x n d p i j e,
+    proxy_protocol c = false -> 0 < eff_field_size c ->
+    find_pat CRLF (d ++ concat p) = Some i -> (eff_line c = 0 \/ N.of_nat i <= eff_line c) ->
+    prefixb CRLF (skipn (i + 2) (d ++ concat p)) = false ->
+    find_pat CRLFCRLF (skipn (i + 2) (d ++ concat p)) = Some j ->
+    within_limits c (S (length (split_crlf (firstn j (skipn (i + 2) (d ++ concat p))))))
+                  (split_crlf (firstn j (skipn (i + 2) (d ++ concat p)))) 0 = true ->
+    parse_from c x n d p = inr e -> size_error e = false.
+Proof. exact request_within_limits_not_rejected_for_size. Qed.
+Print Assumptions C12_request_within_all_limits_not_rejected_for_size.
+
 (* -- bounded buffering: whatever the client sends in reads of at most M bytes, each refill loop
       (request line, header block / trailer block, chunk-size line) never holds more than its cap + M -- *)
 Theorem C12_request_line_buffer_bounded : forall c M data p, 0 < eff_line c ->
